@@ -1,5 +1,5 @@
 SPECIFICATION Spec
-CONSTANT IdleBypassBug = FALSE
-CONSTANT StatusRewrapBug = TRUE
+CONSTANT IdleBypassBug = TRUE
+CONSTANT StatusRewrapBug = FALSE
 INVARIANT InvMechanismIsPolicy
 CHECK_DEADLOCK FALSE
